@@ -32,13 +32,13 @@ REQUIRED_COVERS = ["bound_reached", "saturated_with_backlog", "idle_poll", "cras
 
 
 def bounds(tier: str) -> Dict[str, Any]:
-    return {"messages": "M <= 4 quick / 5 thorough (backlog)", "A": "unbounded Int >= 1", "P": "unbounded Int >= 0",
+    return {"messages": "M <= 4 quick / 6 thorough (backlog)", "A": "unbounded Int >= 1", "P": "unbounded Int >= 0",
             "environment choices": "K = 7 quick / 8 thorough, then deterministic drain"}
 
 
 def cases(tier: str) -> List[Any]:
     out = []
-    Ms = (3, 4) if tier == "quick" else (4, 5)
+    Ms = (3, 4) if tier == "quick" else (4, 5, 6)
     K = 7 if tier == "quick" else 8
     for M in Ms:
         for prefix in itertools.product(range(4), repeat=2 if tier == "quick" else 3):
